@@ -263,8 +263,8 @@ def nexecute (sub : NSub) (sc : Script) (cfg : NCfg) (scope : Scope) (x : Ctx) (
   (ncallbacks sub sc cfg .prepare x t.prepare (s.emitG (.cand tr))).bind fun _ s1 =>
     (nevalConds sub sc cfg x t.conds s1).bind fun ok s2 =>
       if !ok then .ok false s2 else
-      (ncallbacks sub sc cfg .beforeSC x cfg.beforeSC (s2.emitG (.exec tr))).bind fun _ s3 =>
-      (ncallbacks sub sc cfg .before x t.before s3).bind fun _ s4 =>
+      (ncallbacks sub sc cfg .beforeSC x cfg.beforeSC s2).bind fun _ s3 =>
+      (ncallbacks sub sc cfg .before x t.before (s3.emitG (.exec tr))).bind fun _ s4 =>
       (match t.dest with
         | some d => nchangeState sub sc cfg scope x d s4
         | none => .ok () s4).bind fun _ s5 =>
